@@ -153,6 +153,7 @@ class Runner:
         self.dep = os.path.join(self.src, "bitbybit")
         self.lock = os.path.join(self.src, "Cargo.lock")
         self.inconclusive = []
+        self.universal_notes = []
         self.stats = {"kani_wall": 0.0, "accept_wall": 0.0, "accept_rounds": 0}
         self.tools = {}
 
@@ -489,6 +490,9 @@ class Runner:
                 po = [o for o in outcomes if o.uid == uid and o.hname == probe and o.profile == prof]
                 if not po or po[0].covers.get(label) != "Satisfied":
                     continue
+            if u.meta.get("origin") == "universal":
+                self.universal_notes.append(f"harness {uid}::{hn} does not type-check: {msgs[0][:300]}")
+                continue
             role = (h[0].role if h else "") or u.meta.get("role", "")
             emit("api-shape", uid, hn, role, prof, {"harness_source": h[0].body if h else None, "diagnostic": msgs[0][:3000],
                                                    "detail": "harness written against the documented API does not type-check",
@@ -501,7 +505,7 @@ class Runner:
                 rejected_invalid.append((uid, prof))
             else:
                 rejected_valid.append((uid, prof, msgs[0][:1500]))
-                if plan.accept_is_obligation:
+                if plan.accept_is_obligation and u.meta.get("origin") != "universal":
                     emit("rejected-valid-declaration", uid, "", u.meta.get("role", "") or "rule-valid-rejected", prof,
                          {"diagnostic": msgs[0][:3000], "detail": "a declaration that follows the documented rules does not compile"})
         accepted_invalid = []
@@ -587,6 +591,7 @@ class Runner:
                 "oracle_selftest": getattr(self, "selftest", {}),
                 "native_executions": getattr(self, "native_runs", 0),
                 "second_solver_kissat": self.kissat,
+                "universal_unit_notes": self.universal_notes[:20],
                 "known_findings_hit": [{"role": k["role"], "unit": r["unit"]} for (r, k) in knowns],
                 "inconclusive": self.inconclusive[:40],
                 "unreproduced_counterexamples": len(unrepro),
